@@ -26,7 +26,11 @@ RULE = (
     "written; 'ref' = the observations of generated sequences encoded by the reference encoder in each compatibility variant "
     "(minimal / non-minimal msgpack length classes, [name,hash] / bare-name identifiers, records without _version, 1-3 extra "
     "reserved fields before _version, UTC timestamps as text, two concatenated streams) and read by RecordStreamReader; "
-    "'golden' = every entry of the frozen corpus produced at the pinned revision.  Non-trivial = at least one record frame; "
+    "'golden' = every entry of the frozen corpus produced at the pinned revision; 'lit' = hand-written literals "
+    "(verif/literals.py: field type, constructor input, expected observation written out by hand - e.g. an IPv4-mapped IPv6 "
+    "address stays IPv6 with its 48-bit integer, a host network is 'a.b.c.d/32') checked in both directions: bytes written "
+    "for the input must reference-decode to the expected observation, and the reference encoding of it in every variant must "
+    "be read back as exactly that.  Non-trivial = at least one record frame; "
     "distinct = (family, variant, focus cell, sub-seed)."
 )
 ASSUMPTIONS = [
@@ -103,6 +107,12 @@ def generate(ctx):
     # a conforming stream that announces each of MANY record types once and uses early types again much later
     if ctx.shard == 0:
         yield {"k": "many", "n": ctx.scale(2600, 40000), "s": subseed("c02", ctx.seed, "many")}
+    # hand-written literals: the expected observation does not come from the library (both directions)
+    from .. import literals
+
+    for i in range(len(literals.LITERALS)):
+        if ctx.mine(i):
+            yield {"k": "lit", "i": i}
     for i, ent in enumerate(ctx.state["golden"]):
         if ctx.mine(i):
             yield {"k": "golden", "id": ent["id"]}
@@ -169,6 +179,66 @@ def run_many_types(ctx, case):
     ctx.sample({"case": case, "bytes": len(data), "records": len(expected)}, kind="many")
 
 
+def run_literal(ctx, case):
+    """One hand-written literal: (impl) the library builds the record from the input and writes it, the reference decoder
+    must find the hand-written observation in the bytes; (ref) the reference encoder writes the hand-written observation,
+    the library must read it back as exactly that."""
+    import datetime as _dt
+
+    from flow.record import RecordDescriptor, RecordStreamReader, RecordStreamWriter
+
+    from .. import literals
+
+    t, src, expect, ref_ok = literals.LITERALS[case["i"]]
+    D = RecordDescriptor("lit/x", [("string", "pre"), (t, "v"), ("varint", "post")])
+    try:
+        r = D(pre="p", v=literals.evaluate(src), post=7, _generated=_dt.datetime(2020, 1, 2, 3, 4, 5, tzinfo=_dt.timezone.utc))
+        buf = io.BytesIO()
+        w = RecordStreamWriter(buf)
+        w.write(r)
+        w.flush()
+        data = buf.getvalue()
+        w.fp = None
+    except Exception as e:  # noqa: BLE001
+        ctx.violation(None, "literal %s(%s): construction / writing raised %s" % (t, src, type(e).__name__), detail={"exception": repr(e)[:300]})
+        return
+    frame = observe.normalise(observe.obs(r))
+
+    def field(o):
+        return dict((k_, v_) for k_, v_ in observe.normalise(o)[3]).get("v")
+
+    want = observe.normalise(["rec", "lit/x", [[t, "v"]], [["v", expect]]])[3][0][1]
+    try:
+        dec = refcodec.decode_stream(data)
+        got = field(dec.records[0]) if len(dec.records) == 1 else ["<%d records>" % len(dec.records)]
+    except Exception as e:  # noqa: BLE001
+        got = ["<not decodable: %s>" % str(e)[:300]]
+    if got != want:
+        ctx.violation(classify_stream_value_diff("$[0].v", t, want, got), "literal %s(%s): the written bytes do not hold the value the input stands for" % (t, src),
+                      detail={"type": t, "input": src, "expected": want, "reference_decoder_finds": got})
+    ctx.event("literal_impl")
+    if ref_ok:
+        exp_rec = ["rec", frame[1], frame[2], [[k_, (want if k_ == "v" else v_)] for k_, v_ in frame[3]]]
+        for vi, variant in enumerate(VARIANTS):
+            opts = {kk: vv for kk, vv in variant.items() if kk not in ("name", "concat")}
+            if variant.get("concat"):
+                continue
+            enc = refcodec.encode_stream([exp_rec], rng=random.Random(case["i"] * 31 + vi), **opts)
+            try:
+                with warnings.catch_warnings():
+                    warnings.simplefilter("ignore")
+                    back = list(RecordStreamReader(io.BytesIO(enc)))
+                gotf = field(observe.obs(back[0])) if len(back) == 1 else ["<%d records>" % len(back)]
+            except Exception as e:  # noqa: BLE001
+                gotf = ["<reader raised %s>" % repr(e)[:300]]
+            if gotf != want:
+                ctx.violation(classify_stream_value_diff("$[0].v", t, want, gotf), "literal %s: a reference-encoded stream (%s) holding the value is read back as something else" % (t, variant["name"]),
+                              detail={"type": t, "input": src, "encoded": want, "read_back": gotf, "variant": variant["name"]})
+            ctx.event("literal_ref")
+    ctx.nontrivial("lit", case["i"])
+    ctx.sample({"case": case, "type": t, "input": src, "expected": want}, kind="lit")
+
+
 def same_name_types(observations):
     seen = {}
 
@@ -211,6 +281,10 @@ def execute(ctx, case):
 
     if k == "many":
         run_many_types(ctx, case)
+        return
+
+    if k == "lit":
+        run_literal(ctx, case)
         return
 
     focus = (case["t"], case["vc"]) if "t" in case else None
